@@ -94,7 +94,8 @@ def gen_program(sim, size_hint, writable):
         elif k == 15 and writable:
             # back to (or next to) the offset at which the latest write began: with the write still in the
             # buffer this is the file's own idea of "where I am" before the pending bytes
-            prog.append(["seekback", (0, 0, 0, 1, -1)[sim.choose(5)]])
+            # ("end": the offset a non-append file would be at after that write, i.e. start + length)
+            prog.append(["seekback", (0, 0, 0, 1, -1, "end", "end")[sim.choose(7)]])
         else:
             prog.append(["tell"])
     return prog
@@ -105,9 +106,15 @@ def gen_case(sim):
     size = (0, 10, 300, 5000, 100000)[sim.choose(5)]
     mode = MODES[mi][0]
     exists = not mode.startswith("x") or sim.choose(6) == 0
+    program = gen_program(sim, size, mode != "r")
+    if mode.startswith("a") and "+" in mode and size >= 10 and sim.choose(3) == 0:
+        # read somewhere, append, then read from the offset a non-append file would be at after that write: the
+        # served handle must not take the position it remembers from the read for where the append went
+        program = [["seek", sim.choose(size // 2), 0], ["read", 1 + sim.choose(6)], ["write", 1 + sim.choose(5), sim.choose(1000)],
+                   ["seekback", "end"], ["read", (None, 3, 100)[sim.choose(3)]]] + program[:10]
     return {"mode": mode, "bufsize": BUFSIZES[sim.choose(len(BUFSIZES))], "pipelined": bool(sim.choose(3) == 0),
             "size": size, "data_seed": sim.choose(1000), "exists": exists,
-            "program": gen_program(sim, size, mode != "r")}
+            "program": program}
 
 
 def apply(f, op, ref):
@@ -241,16 +248,17 @@ def run_case(sim, s, case, fi):
         return
     if pipelined:
         rf.set_pipelined(True)
-    last_write = 0
+    last_write = last_len = 0
     for i, op in enumerate(prog):
         if op[0] == "seek":
             op = clamp_seek(op, lf, s.lpath(name))
         elif op[0] == "seekback":
-            op = ["seek", max(0, last_write + op[1]), 0]
+            op = ["seek", max(0, last_write + (last_len if op[1] == "end" else op[1])), 0]
             sim.probe("seek_to_start_of_latest_write")
         elif op[0] == "write":
             try:
                 last_write = lf.tell()
+                last_len = op[1]
             except Exception:
                 pass
         lres = rres = None
